@@ -28,6 +28,15 @@ func toolMain(a []string) {
 			e := safeExplain(s)
 			fmt.Printf("--- stmt %d (%T) explain panicked=%v %s\n%s", i, s, e.Panicked, e.PanicVal, e.Out)
 		}
+	case "c11-replay": // hex inputs on stdin -> digest of Explain+Marshal output per input (fresh process)
+		sc := bufio.NewScanner(os.Stdin)
+		sc.Buffer(make([]byte, 1<<22), 1<<26)
+		out := bufio.NewWriter(os.Stdout)
+		defer out.Flush()
+		for sc.Scan() {
+			in, _ := unhex(sc.Text())
+			fmt.Fprintln(out, sumHex(c11Outputs(string(in))))
+		}
 	case "lexdump": // hex lines on stdin -> canonical token streams of the real lexer
 		sc := bufio.NewScanner(os.Stdin)
 		sc.Buffer(make([]byte, 1<<22), 1<<26)
